@@ -25,6 +25,7 @@ type S struct {
 	Chain bool    // B is a single if, rendered as "else if"
 	Cases [][]*S  // switch case bodies
 	Def   bool    // the last case is "default"
+	DefAt int     // textual position of the default clause: 0 = last, j > 0 = printed as clause number j (1 = first)
 	Init  string  // "", "decl", "yield", "eff"
 	Post  string  // for: "", "inc", "yield", "eff"
 	N     int     // small parameter (loop bound, ...)
@@ -89,7 +90,7 @@ func Size(xs []*S) int {
 func shape(xs []*S, b *strings.Builder) {
 	b.WriteByte('[')
 	for _, s := range xs {
-		fmt.Fprintf(b, "%s/%s/%s/%s/%v/%v/%d/%s", s.K, s.Form, s.Init, s.Post, s.Chain, s.Def, s.N, s.Code)
+		fmt.Fprintf(b, "%s/%s/%s/%s/%v/%v/%d/%s", s.K, s.Form, s.Init, s.Post, s.Chain, s.Def, s.N+100*s.DefAt, s.Code)
 		shape(s.A, b)
 		if s.B != nil {
 			b.WriteString("else")
@@ -186,6 +187,9 @@ func features(xs []*S, c fctx, f map[string]bool, top bool) {
 			f["switch:"+s.Form] = true
 			if s.Init != "" {
 				f["switch-init:"+s.Init] = true
+			}
+			if s.Def && s.DefAt > 0 && s.DefAt < len(s.Cases) {
+				f["switch-default-not-last"] = true
 			}
 			if containsYield([]*S{s}) {
 				f["yielding-switch"] = true
@@ -540,7 +544,16 @@ func (r *rctx) switchStmt(s *S) {
 		r.line("switch %str.N(%d, %d) {", init, s.ID*10, ncase+1)
 	}
 	types := []string{"int", "string", "bool", "nil"}
-	for i, c := range s.Cases {
+	// textual order of the clauses: Go allows the default clause anywhere
+	order := make([]int, 0, n)
+	for i := 0; i < n; i++ {
+		order = append(order, i)
+	}
+	if s.Def && s.DefAt > 0 && s.DefAt < n {
+		order = append(order[:s.DefAt-1], append([]int{n - 1}, order[s.DefAt-1:n-1]...)...)
+	}
+	for _, i := range order {
+		c := s.Cases[i]
 		switch {
 		case s.Def && i == n-1:
 			r.line("default:")
@@ -840,6 +853,9 @@ func enumStmt(n int, emit func(*S)) {
 			enumLists(m-l, func(b []*S) {
 				emit(&S{K: "if", A: a, B: b})
 				emit(&S{K: "switch", Form: "tag", Cases: [][]*S{a, b}, Def: true})
+				if containsYield(a) || containsYield(b) {
+					emit(&S{K: "switch", Form: "tagless", Cases: [][]*S{a, b}, Def: true, DefAt: 1})
+				}
 			})
 		})
 	}
@@ -1007,6 +1023,9 @@ func (g *rgen) stmt(depth int, c wctx) *S {
 			}
 		}
 		s.Def = g.rng.Intn(2) == 0
+		if s.Def && n > 1 {
+			s.DefAt = g.rng.Intn(n) // 0 = last
+		}
 		if g.rng.Intn(4) == 0 {
 			s.N = 7 // multi-value / multi-type first clause
 		}
